@@ -233,7 +233,16 @@ pub fn explore(case : &Case, caps : &Caps, only : Option<(u32, Option<u32>, Opti
         for (ri, rsched) in recoveries.into_iter().enumerate()
         {
             let (v, obs) = recover(case, &rules, &disk, cp.clock + 10, rsched, &whence, "", victim, want_second && ri == 0);
-            if let Some(s) = stats.as_deref_mut() { s.inc("evaluations"); s.inc("c11.recovery_builds"); if let Some((rinv, _)) = &obs { s.digest_str(&format!("{} {:?} {}", cp.index, torn, rinv.res.verdict.short())); } }
+            if let Some(s) = stats.as_deref_mut()
+            {
+                s.inc("evaluations"); s.inc("c11.recovery_builds");
+                if let Some((rinv, _)) = &obs
+                {
+                    s.digest_str(&format!("{} {:?} {}", cp.index, torn, rinv.res.verdict.short()));
+                    s.add("sim.steps", rinv.res.steps as u64); s.add("sim.decisions", rinv.res.decisions as u64); s.add("sim.events", rinv.res.events.len() as u64);
+                    s.add("sim.threads", rinv.res.threads as u64); s.add("sim.clock_ticks", rinv.res.clock_ticks);
+                }
+            }
             vs.extend(v);
             if ri == 0 { first_recovery = obs; }
         }
